@@ -4,10 +4,10 @@ import json, subprocess
 props = [json.loads(l) for l in open('/verif/properties.jsonl')]
 TECH = "explicit TLA+ spec checked by TLC + conformance (TLC-generated scenarios replayed into the real code; recorded traces validated by a Trace_* spec)"
 claimed = {
- "C01": dict(design="5 (C01)", text="TLC checks the laws of the region algebra on spec/BoolOps.tla and generates pairs of lattice paths (all degenerate placements: shared vertices, collinear overlaps, vertical edges, spikes, coincident contours; 1-2 contours, 3-6 vertices) with the exact three-valued expected cells of And/Or/Xor/Not/DivideBy; every pair is executed on the real operations under 2-3 affine embeddings (lattice symmetries, translation, 1e-3/1e4 scaling, Pythagorean rotation, shear) and judged by an independent winding oracle at the spec's sample points, plus inclusion-exclusion of the real result areas; panics and non-termination are violations.",
-   note="Trusted: TLC, harness/internal/oracle (winding by crossing number), latgeo embeddings. Operands are lattice polygons and their affine images (no Bezier operands). Rare sweep-line robustness failures of the unchanged library in the 'degenerate'/'overlap' feature classes are listed as known findings by (deviation kind, feature class) signature; failures in general position or of a new kind are reported."),
- "C02": dict(design="5 (C02)", text="TLC checks SettleLaws on spec/BoolOps.tla and generates lattice paths (exhaustive 4-point contours and pairs of 3-point contours on the 3x3 lattice; random self-intersecting 5-6-gons, two contours, open sub-paths) with the exact expected winding (0/1/free) of Settle under the four fill rules; the real Settle output must have exactly that winding at every sample (hence equal NonZero/EvenOdd/Positive readings), be closed, free of proper crossings, leave the receiver unchanged, and a second Settle must keep cells, canonical form and area.",
-   note="Trusted: TLC, winding oracle, proper-crossing test with tolerance 1e-7 x embedding scale. Inputs are lattice polygons and their affine images."),
+ "C01": dict(design="5 (C01)", text="TLC checks the laws of the region algebra on spec/BoolOps.tla and generates pairs of lattice paths (all degenerate placements: shared vertices, collinear overlaps, vertical edges, spikes, coincident contours; 1-2 contours, 3-6 vertices) with the exact three-valued expected cells of And/Or/Xor/Not/DivideBy; every pair is executed on the real operations under 2-3 affine embeddings (lattice symmetries, translation, 1e-3/1e4 scaling, Pythagorean rotation, shear) and judged by an independent winding oracle at the spec's sample points, plus inclusion-exclusion of the real result areas; panics and non-termination are violations. Further sources with spec-computed expectations: register programs (P op1 Q1) op2 Q2; curved operands (spec/CurvedOps.tla, exact winding by dyadic subdivision); multi-contour scenes, band, plate and island scenes recorded from the real operations and judged by spec/Trace_BoolOps.tla; sub-grid jitter embeddings (coinciding vertices moved apart by less than the 1e-8 snap grid); the Paths entry points.",
+   note="Trusted: TLC, harness/internal/oracle (winding by crossing number), latgeo embeddings. Operands are lattice polygons, closed chains of cubic Beziers and their affine images. Rare sweep-line robustness failures of the unchanged library in the 'degenerate'/'overlap' feature classes are listed as known findings by (deviation kind, feature class) signature; failures in general position or of a new kind are reported."),
+ "C02": dict(design="5 (C02)", text="TLC checks SettleLaws on spec/BoolOps.tla and generates lattice paths (exhaustive 4-point contours and pairs of 3-point contours on the 3x3 lattice; random self-intersecting 5-6-gons, two contours, open sub-paths) with the exact expected winding (0/1/free) of Settle under the four fill rules; the real Settle output must have exactly that winding at every sample (hence equal NonZero/EvenOdd/Positive readings), be closed, free of proper crossings, leave the receiver unchanged, and a second Settle must keep cells, canonical form and area. Further sources: curved contours (spec/CurvedOps.tla), contours mixing lines, rotated elliptical arcs, quadratic and cubic Beziers with the exact windings of spec/Query.tla, a fixed-seed family of contours sharing an edge crossed by thin triangles (spec/Scenes.tla; the failures of the unchanged tree in it are known findings per input), and the Paths.Settle entry point.",
+   note="Trusted: TLC, winding oracle, proper-crossing test with tolerance 1e-7 x embedding scale. Inputs are lattice polygons, lattice curve paths and their affine images."),
  "C15": dict(design="5 (C15)", text="TLC model-checks the Context/Canvas machine (spec/Context.tla: invariants OrderOK, FitPost, StackDepth; action properties LayersStable, PushPopRestores), enumerates call histories exhaustively (broad alphabet depth 3, narrow stack/z-order/canvas alphabets depth 5-7) and by simulation (depth 10-14) with the exact expected RenderTo event list, and replays each into the real Context/Canvas; in the other direction long random call traces recorded from the real objects are validated event by event by spec/Trace_Context.tla.",
    note="Trusted: TLC, the recording renderer and the abstraction of styles/matrices in harness/internal/props/c15; matrices restricted to the integer lattice (rotations by multiples of 90 degrees); text/image content not inspected, only their placement."),
  "C20": dict(design="5 (C20)", text="TLC model-checks the pool life-cycle (spec/Pools.tla: Exclusive, NoStaleRead, Balanced, PooledGarbage) and the font-name counter (spec/PoolsCounter.tla: UniqueNames), with negative controls (buggy variants must violate). The stale-state adversary of the model is realised by verif hooks: TLC-generated operations are executed on clean pools, on pools poisoned with adversarial objects (3 patterns) and after preceding calls and must give bit-identical results; TLC-generated interleavings are imposed on two goroutines at pool-operation granularity through a blocking hook and each result must equal its solo result; recorded pool Get/Put events are validated by spec/Trace_Pools.tla; mixed concurrent workloads (geometry, text layout on a shared font, font loading incl. fonts without name records, rasterization) run in a -race build and are compared with their solo results.",
